@@ -461,10 +461,29 @@ class TransactionManager(Elaboratable):
         with DependencyContext(DependencyManager()):
             for group in final_simultaneous:
                 name = "_".join([t.name for t in group])
+                run_conditions = dict[Body, Value]()
+
+                def run_condition(body: Body) -> Value:
+                    # The condition under which `body` runs, provided that the merged transaction runs. It is
+                    # computed from call enables only: using `body.run` here would feed the run signal of the
+                    # merged transaction back into its own argument validation (a combinational loop).
+                    if body not in run_conditions:
+                        if body in group:
+                            deps = ready_dependencies[body] & conditionally_called
+                            run_conditions[body] = Cat(run_condition(dep) for dep in deps).all()
+                        else:
+                            calls = [
+                                run_condition(caller) & call.enable
+                                for caller in group
+                                if (caller, body) in method_map.info_by_call
+                                for call in method_map.info_by_call[(caller, MBody(body))]
+                            ]
+                            run_conditions[body] = Cat(calls).any() if calls else body.run
+                    return run_conditions[body]
+
                 with Transaction(name=name).body(m):
                     for transaction in group:
-                        nontrivial_deps = ready_dependencies[transaction] & conditionally_called
-                        methods[transaction](m, enable_call=Cat(dep.run for dep in nontrivial_deps).all())
+                        methods[transaction](m, enable_call=run_condition(transaction))
             self.transactions += DependencyContext.get().get_dependency(TransactionsKey())
 
         return m
